@@ -4,7 +4,7 @@ import core, sx, shapes
 from core import hbump
 from props import dcommon, dgeneric
 
-LEVEL = 'exploration'
+LEVEL = 'proof'
 FEATURES = ('debug_diffs', 'generated_setters')
 PROP = 'C15'
 
